@@ -36,6 +36,31 @@ def split_targs(s):
     return out
 
 
+_CV = re.compile(r'\b(const|volatile|struct|class|restrict|__restrict__|__restrict)\b')
+
+
+def strip_cv_top(s):
+    """remove cv-qualifiers / elaborated keywords outside template argument lists"""
+    out, depth, cur = [], 0, ''
+    for ch in s:
+        if ch == '<':
+            if depth == 0:
+                out.append(_CV.sub(' ', cur))
+                cur = ''
+            depth += 1
+            cur += ch
+        elif ch == '>':
+            depth -= 1
+            cur += ch
+            if depth == 0:
+                out.append(cur)
+                cur = ''
+        else:
+            cur += ch
+    out.append(_CV.sub(' ', cur) if depth == 0 else cur)
+    return re.sub(r'\s+', ' ', ''.join(out)).replace(' >', '>').replace('< ', '<').strip()
+
+
 class Shapes:
     """Maps clang type strings to shapes, using the record definitions of a TU."""
 
@@ -55,9 +80,7 @@ class Shapes:
         return r
 
     def _of(self, s0):
-        s = s0.strip()
-        s = re.sub(r'\b(const|volatile|struct|class|restrict|__restrict__|__restrict)\b', ' ', s)
-        s = re.sub(r'\s+', ' ', s).strip()
+        s = strip_cv_top(s0.strip())
         if s.endswith('&&'):
             return ('ref', self.of(s[:-2]))
         if s.endswith('&'):
@@ -114,7 +137,20 @@ class Shapes:
         m = re.match(r'^(?:std::)?complex<(.*)>$', s)
         if m:
             return ('struct', 'std::complex', (('re', ('real',)), ('im', ('real',))))
-        # records of the TU
+        # records of the TU (template arguments canonicalised as clang prints specialisations)
+        m = re.match(r'^([\w:]+)<(.*)>$', s)
+        if m:
+            args = []
+            for a in split_targs(m.group(2)):
+                a = a.strip()
+                cst = ''
+                if a.startswith('const '):
+                    cst, a = 'const ', a[6:].strip()
+                a0 = a
+                a = re.sub(r'^dsplib::', '', a)
+                a = {'real_t': 'double', 'cmplx_t': 'dsplib::cmplx_t'}.get(a, a0)
+                args.append(cst + a)
+            s = m.group(1) + '<' + ', '.join(args) + '>'
         for q in ('dsplib::' + s, s, 'dsplib::(anon)::' + s):
             rec = self.tu.records.get(q)
             if rec is not None:
@@ -267,7 +303,7 @@ def fresh(shape, name, depth=0):
     if k == 'opaque':
         return Opaque(name + ':' + shape[1])
     if k == 'ref':
-        raise Unsupported('fresh reference ' + name)
+        return Opaque('unbound-ref:' + name)
     raise Unsupported('fresh of ' + str(shape))
 
 
